@@ -98,11 +98,6 @@ def handleMemo (j : Json) : R Json := do
             ("spec", ofList encAns (runSpec f evict World.init evs)),
             ("stale", ofList encAns (runStale f (fun _ => none) 1 [] evs))])
 
-def numericTok (t : List Char) : Option String :=
-  if t.isEmpty then none
-  else if t.all (fun c => c.isDigit || c == '+' || c == '-' || c == '.' || c == 'e' || c == 'E')
-  then some (String.ofList t) else none
-
 def handleText (j : Json) : R Json := do
   let lines ← asList asStr (← fld j "lines")
   match detectAndParse numericTok (lines.map String.toList) separators with
